@@ -527,15 +527,32 @@ func cmdConc(prop string, args []string) int {
 			stats["load.rounds"]++
 		}
 		// very large batches through the ruler itself (any size must complete and leave nothing locked)
-		sizes := []int{2, 255, 256, 257, 600, 1025}
+		sizes := []int{2, 255, 256, 257, 600, 1025, 2048}
 		if cf.tier == "thorough" {
-			sizes = append(sizes, 2048, 2049, 5000)
+			sizes = append(sizes, 2049, 5000)
 		}
-		for _, n := range sizes {
+		var seenKeys [][]byte // every key of these batches; all of them are asked for again afterwards
+		for pass, n := 0, 0; pass < len(sizes)+12; pass++ {
+			again := pass >= len(sizes)
+			if !again {
+				n = sizes[pass]
+			} else {
+				// an instance that has served several thousand validators serves each of them again
+				n = 512
+				if (pass-len(sizes))*n >= len(seenKeys) {
+					break
+				}
+			}
 			epoch += 2
 			data := make([]*ruler.RulesData, n)
 			for i := range data {
-				data[i] = &ruler.RulesData{WalletName: "Big", AccountName: fmt.Sprintf("A%d", i), PubKey: rng.Bytes(48),
+				key := rng.Bytes(48)
+				if again {
+					key = seenKeys[((pass-len(sizes))*n+i)%len(seenKeys)]
+				} else {
+					seenKeys = append(seenKeys, key)
+				}
+				data[i] = &ruler.RulesData{WalletName: "Big", AccountName: fmt.Sprintf("A%d", i), PubKey: key,
 					Data: &rules.SignBeaconAttestationData{Domain: mkDomain(domAttester, 0), Slot: epoch * 32, BeaconBlockRoot: fill32(1),
 						Source: &rules.Checkpoint{Epoch: epoch - 1, Root: fill32(0)}, Target: &rules.Checkpoint{Epoch: epoch, Root: fill32(1)}}}
 			}
@@ -554,9 +571,17 @@ func cmdConc(prop string, args []string) int {
 				if ok != n {
 					monFail = append(monFail, fmt.Sprintf("a batch of %d fresh, valid attestations through the ruler got %d approvals", n, ok))
 				}
-				stats[fmt.Sprintf("bigbatch.n=%d", n)] = ok
+				if again {
+					stats["bigbatch.keys-served-again"] += ok
+				} else {
+					stats[fmt.Sprintf("bigbatch.n=%d", n)] = ok
+				}
 			case <-time.After(30 * time.Second):
-				monFail = append(monFail, fmt.Sprintf("a batch of %d attestations through the ruler never completed (30 s)", n))
+				if again {
+					monFail = append(monFail, fmt.Sprintf("after %d distinct keys, a batch of %d attestations for keys served before never completed (30 s)", len(seenKeys), n))
+				} else {
+					monFail = append(monFail, fmt.Sprintf("a batch of %d attestations through the ruler never completed (30 s)", n))
+				}
 			}
 			if len(monFail) > 0 {
 				break
